@@ -172,6 +172,12 @@ def main() -> int:
     if ctx.props.get("failed"):
         unexplained.append({"kind": "proof-obligation", "what": ctx.props["failed"], "log": ctx.props.get("log", "")[-2000:]})
     for m in ctx.mismatches:
+        f = open_keys.get((pid, m.get("key")))
+        if f:  # a listed finding may also name the correspondence it breaks (open: property=<id> key=<correspondence key> ...)
+            if m.get("key") not in reported_known:
+                lines.append(f"KNOWN-FINDING: property={pid} {f['what']}")
+                reported_known.add(m.get("key"))
+            continue
         unexplained.append({"kind": "correspondence", "what": f"correspondence `{m['correspondence']}` no longer checks", **m})
     if unexplained and n_viol == 0:
         # the property is no longer shown to hold; no concrete failing input was found by the search
